@@ -102,6 +102,14 @@ fn random() -> [u8; SECRET_SIZE] {
     bytes
 }
 
+#[cfg(mainline_verif)]
+impl Tokens {
+    /// Verification hook: (previous secret, current secret).
+    pub fn verif_secrets(&self) -> ([u8; SECRET_SIZE], [u8; SECRET_SIZE]) {
+        (self.prev_secret, self.curr_secret)
+    }
+}
+
 #[cfg(test)]
 mod test {
 
